@@ -316,7 +316,9 @@ class Contrasts(metaclass=InterfaceMeta):
         sparse: bool = False,
     ) -> Union[pandas.DataFrame, numpy.ndarray, spsparse.spmatrix]:
         coding_matrix = self.get_coding_matrix(levels, reduced_rank, sparse=sparse)
-        return (dummies if sparse else dummies.values) @ coding_matrix
+        if isinstance(dummies, pandas.DataFrame) and not sparse:
+            dummies = dummies.values
+        return dummies @ coding_matrix
 
     # Coding matrix methods
 
